@@ -247,6 +247,25 @@ def r_leafptr(ctx):
                     cur = unmut(fa_env_init(fa, p, L))
                     buf_ok = cur is not None and any(_same_alloc(t, ret) for t in subterms(cur))
                 obs.append(Ob("R-LEAFPTR", fn, "returned leaf bytes = buffer behind the leaf cursor of the accepted attempt", buf_ok, "returns %s" % tstr(ret)[:80], pu.loc()))
+        # every chunk becomes a leaf: an iteration of the chunk loop that ends without pushing a pointer is admissible only for an empty chunk
+        for p in fa.paths:
+            if p.exit == "err":
+                continue
+            for e in p.events:
+                if not (e.kind == "loop" and e.d["what"] == "enter" and is_call_to(unmut(e.d.get("iter")) if e.d.get("iter") is not None else None, lambda s: s.endswith("::chunks"))):
+                    continue
+                lid = e.d["lid"]
+                ex = [x for x in p.events if x.kind == "loop" and x.d["what"] == "exit" and x.d["lid"] == lid and x.seq > e.seq]
+                if not ex:
+                    continue
+                ex = ex[0]
+                pushed = [x for x in p.events if x.kind == "call" and x.d["fn"].endswith("Vec::<T, A>::push") and e.seq < x.seq < ex.seq and x.loops and lid in x.loops]
+                if pushed:
+                    continue
+                chunk = ("elem", unmut(e.d["iter"]), lid)
+                emp = any(fct[0] == "empty" and fct[2] is True and unmut(fct[1]) == chunk for fct, d in path_facts(p, ex.seq, e.seq))
+                obs.append(Ob("R-LEAFPTR", fn, "a chunk is passed over without a leaf only if it is empty", emp,
+                              "chunk-loop iteration ends (%s) without a pointer; facts about the chunk: %s" % (ex.d.get("how"), "empty" if emp else "none"), ex.loc()))
         # termination side condition: leaf size strictly grows on the retry path
         grows = []
         for atom, srcs in fa.havoc_src.items():
